@@ -287,6 +287,9 @@ impl Array8 {
             .map_err(insufficient_data("aux_count"))?; // always 0
 
         // Read byte array from offset HLL_BYTE_ARR_START
+        if cursor.remaining() < k {
+            return Err(Error::insufficient_data("data"));
+        }
         let mut data = vec![0u8; k];
         // The register bytes are present in compact and updatable images alike.
         cursor
